@@ -11,6 +11,7 @@ struct InvStats {
     unsigned long long evals = 0, viol = 0, rt = 0, zero_results = 0, nonzero_results = 0;
     bool type_ok = true;
     int shown = 0;
+    const char *only_kind = nullptr, *only_x = nullptr;   // replay: report only this (kind, x)
 };
 
 // A trap inside the library (e.g. SIGFPE from a division by a wrongly truncated operand) on an input the statement
@@ -27,6 +28,7 @@ extern "C" inline void c15_trap(int sig) {
 
 inline void inv_v(InvStats &st, int id, const char *kind, const std::string &x, const std::string &got,
                   const std::string &exp) {
+    if (st.only_kind && (std::strcmp(st.only_kind, kind) != 0 || x != st.only_x)) return;
     ++st.viol;
     if (st.shown++ < 4)
         std::printf("V {\"inst\":%d,\"kind\":\"%s\",\"x\":\"%s\",\"got\":\"%s\",\"exp\":\"%s\"}\n", id, kind, x.c_str(),
@@ -37,7 +39,7 @@ inline void inv_v(InvStats &st, int id, const char *kind, const std::string &x, 
 template <typename I, bool Implicit>
 struct ImplicitForms {
     template <typename Q>
-    static void value(InvStats &, int, Q, i128, long long) {}
+    static void value(InvStats &, int, Q, i128, i128) {}
     static void roundtrip(InvStats &, int) {}
     template <typename Q>
     static void fvalue(InvStats &, int, Q, ld) {}
@@ -47,14 +49,14 @@ template <typename I>
 struct ImplicitForms<I, true> {
     typedef typename I::R R;
     template <typename Q>
-    static void value(InvStats &st, int id, Q q, i128 exp, long long x) {
+    static void value(InvStats &st, int id, Q q, i128 exp, i128 x) {
         const R a = au::inverse_in(typename I::Tgt{}, q);
         const auto bq = au::inverse_as(I::tgt_maker(), q);
         if (!std::is_same<decltype(bq), const au::Quantity<typename I::Tgt, R>>::value) st.type_ok = false;
         const R b = bq.in(typename I::Tgt{});
         st.evals += 2;
-        if ((i128)a != exp) inv_v(st, id, "inverse_in", std::to_string(x), num_str(a), i128_str(exp));
-        if ((i128)b != exp) inv_v(st, id, "inverse_as", std::to_string(x), num_str(b), i128_str(exp));
+        if ((i128)a != exp) inv_v(st, id, "inverse_in", i128_str(x), num_str(a), i128_str(exp));
+        if ((i128)b != exp) inv_v(st, id, "inverse_as", i128_str(x), num_str(b), i128_str(exp));
     }
     static void roundtrip(InvStats &st, int id) {
         const long long hi = (long long)std::numeric_limits<R>::max() < 1000 ? (long long)std::numeric_limits<R>::max() : 1000;
@@ -94,19 +96,52 @@ inline void inv_summary(const InvStats &st, int id) {
     std::fflush(stdout);
 }
 
+// Explicit-rep forms whose target rep is WIDER than the source rep R (the library must divide in the common type of the
+// two reps): inverse_in<int64_t>, inverse_as<int64_t> (exact trunc(K/x)) and inverse_in<double> (K/x within 4 eps).
+template <typename I, typename Q>
+inline void wide_forms(InvStats &st, int id, Q q, i128 K, i128 x, std::true_type) {
+    const i128 exp = K / x;
+    const std::int64_t a = au::inverse_in<std::int64_t>(typename I::Tgt{}, q);
+    const auto bq = au::inverse_as<std::int64_t>(I::tgt_maker(), q);
+    if (!std::is_same<decltype(bq), const au::Quantity<typename I::Tgt, std::int64_t>>::value) st.type_ok = false;
+    const std::int64_t b = bq.in(typename I::Tgt{});
+    const double d = au::inverse_in<double>(typename I::Tgt{}, q);
+    if (!std::is_same<decltype(au::inverse_in<double>(typename I::Tgt{}, q)), double>::value) st.type_ok = false;
+    st.evals += 3;
+    if ((i128)a != exp) inv_v(st, id, "inverse_in<int64_t>(narrower source)", i128_str(x), num_str(a), i128_str(exp));
+    if ((i128)b != exp) inv_v(st, id, "inverse_as<int64_t>(narrower source)", i128_str(x), num_str(b), i128_str(exp));
+    const ld ex = (ld)K / (ld)x;
+    if (!(std::fabs((ld)d - ex) <= 4 * (ld)std::numeric_limits<double>::epsilon() * std::fabs(ex)))
+        inv_v(st, id, "inverse_in<double>(integral source)", i128_str(x), num_str(d), num_fp(ex));
+}
+template <typename I, typename Q>
+inline void wide_forms(InvStats &, int, Q, i128, i128, std::false_type) {}
+
+// the x values at which the wider-target forms are evaluated: a sub-lattice of the same-rep sweep
+inline bool wide_x(i128 x) {
+    const i128 m = x < 0 ? -x : x;
+    return m <= 4096 || m % 257 == 0 || m > 65536;
+}
+
+template <typename R>
+inline bool fits_rep(i128 x) {
+    return x >= (i128)std::numeric_limits<R>::min() && x <= (i128)std::numeric_limits<R>::max();
+}
+
 // integral rep: I::K is the exact conversion constant (fits unsigned long long and the rep)
 template <typename I>
-void run_inv_int(int id, long long only_x) {
+void run_inv_int(int id, const char *only_kind, const char *only_x) {
     typedef typename I::R R;
+    typedef BoolC<(sizeof(R) < 8)> Narrow;
     InvStats st;
+    st.only_kind = only_kind;
+    st.only_x = only_x;
     std::signal(SIGFPE, c15_trap);
     c15_cur_inst = id;
     const i128 K = (i128)I::K;
     const long long rmax = (long long)(std::numeric_limits<R>::max() < 65536 ? std::numeric_limits<R>::max() : 65536);
     const long long rmin = std::is_signed<R>::value ? -rmax : 1;
-    for (long long x = rmin; x <= rmax; ++x) {
-        if (x == 0) continue;                         // K / 0: no value is promised, never executed
-        if (only_x && x != only_x) continue;
+    auto point = [&](i128 x) {
         c15_cur_x = (double)x;
         const auto q = au::make_quantity<typename I::Src>(static_cast<R>(x));
         const i128 exp = K / x;                       // C++ integer division truncates toward zero
@@ -116,12 +151,31 @@ void run_inv_int(int id, long long only_x) {
         if (!std::is_same<decltype(bq), const au::Quantity<typename I::Tgt, R>>::value) st.type_ok = false;
         const R b = bq.in(typename I::Tgt{});
         st.evals += 2;
-        if ((i128)a != exp) inv_v(st, id, "inverse_in<R>", std::to_string(x), num_str(a), i128_str(exp));
-        if ((i128)b != exp) inv_v(st, id, "inverse_as<R>", std::to_string(x), num_str(b), i128_str(exp));
+        if ((i128)a != exp) inv_v(st, id, "inverse_in<R>", i128_str(x), num_str(a), i128_str(exp));
+        if ((i128)b != exp) inv_v(st, id, "inverse_as<R>", i128_str(x), num_str(b), i128_str(exp));
         ImplicitForms<I, I::IMPLICIT>::value(st, id, q, exp, x);
+        if (wide_x(x)) wide_forms<I>(st, id, q, K, x, Narrow());
+    };
+    for (long long x = rmin; x <= rmax; ++x) {
+        if (x == 0) continue;                         // K / 0: no value is promised, never executed
+        point(x);
     }
-    if (!only_x || only_x <= 1000) ImplicitForms<I, I::IMPLICIT>::roundtrip(st, id);
-    if (!only_x) {
+    {
+        // beyond +-2^16: the neighbourhood of x = K (results 1 and 0) and the limits of the rep (INT_MIN included)
+        const i128 lo = (i128)std::numeric_limits<R>::min(), hi = (i128)std::numeric_limits<R>::max();
+        const i128 ext[] = {K - 1, K, K + 1, -K, -K - 1, 1 - K, K / 2, K / 2 + 1, K / 3, hi, hi - 1, lo, lo + 1};
+        std::vector<i128> seen;
+        for (i128 x : ext) {
+            if (x == 0 || !fits_rep<R>(x) || (x >= rmin && x <= rmax)) continue;
+            bool dup = false;
+            for (i128 y : seen) dup = dup || y == x;
+            if (dup) continue;
+            seen.push_back(x);
+            point(x);
+        }
+    }
+    ImplicitForms<I, I::IMPLICIT>::roundtrip(st, id);
+    {
         // explicit-rep form with a SOURCE rep different from the target rep R: the statement's trunc(K/x) must be
         // formed from the actual x (the library divides in the common type of the two reps, then casts)
         const long long xs[] = {3LL, 65636LL, 1000003LL, 2147483653LL, 4294967311LL, 1000000000007LL, (long long)(K / 3 + 1),
@@ -151,15 +205,43 @@ void run_inv_int(int id, long long only_x) {
     inv_summary(st, id);
 }
 
-// floating rep: I::K() is the conversion constant as long double
+// wider-target forms for a source rep R that cannot hold K itself (e.g. inverse_in<int64_t>(nano(seconds), hertz(int16_t{5})))
 template <typename I>
-void run_inv_fp(int id, long long only_x) {
+void run_inv_wide(int id, const char *only_kind, const char *only_x) {
     typedef typename I::R R;
     InvStats st;
+    st.only_kind = only_kind;
+    st.only_x = only_x;
+    std::signal(SIGFPE, c15_trap);
+    c15_cur_inst = id;
+    const i128 K = (i128)I::K;
+    const i128 lo = (i128)std::numeric_limits<R>::min(), hi = (i128)std::numeric_limits<R>::max();
+    const long long rmax = (long long)(hi < 65536 ? hi : 65536);
+    const long long rmin = std::is_signed<R>::value ? -rmax : 1;
+    auto point = [&](i128 x) {
+        c15_cur_x = (double)x;
+        const auto q = au::make_quantity<typename I::Src>(static_cast<R>(x));
+        ((K / x) == 0 ? st.zero_results : st.nonzero_results)++;
+        wide_forms<I>(st, id, q, K, x, std::true_type());
+    };
+    for (long long x = rmin; x <= rmax; ++x)
+        if (x != 0 && wide_x(x)) point(x);
+    const i128 ext[] = {hi, hi - 1, lo, lo + 1};
+    for (i128 x : ext)
+        if (x != 0 && !(x >= rmin && x <= rmax)) point(x);
+    inv_summary(st, id);
+}
+
+// floating rep: I::K() is the conversion constant as long double
+template <typename I>
+void run_inv_fp(int id, const char *only_kind, const char *only_x) {
+    typedef typename I::R R;
+    InvStats st;
+    st.only_kind = only_kind;
+    st.only_x = only_x;
     const ld K = I::K();
     for (long long x = -65536; x <= 65536; ++x) {
         if (x == 0) continue;
-        if (only_x && x != only_x) continue;
         const auto q = au::make_quantity<typename I::Src>(static_cast<R>(x));
         const ld exp = K / (ld)x;
         ++st.nonzero_results;
@@ -168,8 +250,19 @@ void run_inv_fp(int id, long long only_x) {
         const ld tol = 4 * (ld)std::numeric_limits<R>::epsilon() * std::fabs(exp);
         if (!(std::fabs((ld)a - exp) <= tol)) inv_v(st, id, "inverse_in<R>", std::to_string(x), num_str(a), num_fp(exp));
         ImplicitForms<I, I::IMPLICIT>::fvalue(st, id, q, exp);
+        if (wide_x(x)) {
+            // floating target rep with an INTEGRAL source rep: K / x must be formed in the floating type
+            const auto q32 = au::make_quantity<typename I::Src>(static_cast<std::int32_t>(x));
+            const R w = au::inverse_in<R>(typename I::Tgt{}, q32);
+            const auto wq = au::inverse_as<R>(I::tgt_maker(), q32);
+            if (!std::is_same<decltype(wq), const au::Quantity<typename I::Tgt, R>>::value) st.type_ok = false;
+            st.evals += 2;
+            if (!(std::fabs((ld)w - exp) <= tol)) inv_v(st, id, "inverse_in<R>(int32_t source)", std::to_string(x), num_str(w), num_fp(exp));
+            if (!(std::fabs((ld)wq.in(typename I::Tgt{}) - exp) <= tol))
+                inv_v(st, id, "inverse_as<R>(int32_t source)", std::to_string(x), num_str(wq.in(typename I::Tgt{})), num_fp(exp));
+        }
     }
-    if (!only_x || only_x <= 1000) ImplicitForms<I, I::IMPLICIT>::froundtrip(st, id);
+    ImplicitForms<I, I::IMPLICIT>::froundtrip(st, id);
     inv_summary(st, id);
 }
 
